@@ -8,6 +8,7 @@ import (
 	"sort"
 	"strings"
 	"sync"
+	"tkestack.io/galaxy/pkg/utils/nets"
 
 	corev1 "k8s.io/api/core/v1"
 	extlisters "k8s.io/apiextensions-apiserver/pkg/client/listers/apiextensions/v1"
@@ -118,6 +119,19 @@ func ViewOf(p *corev1.Pod, spec PodSpec) PodView {
 		for _, info := range args.Common.IPInfos {
 			if info.IP != nil {
 				v.Ann = append(v.Ann, IPName(info.IP.IP))
+			}
+		}
+		// the ranges this very object asks for (incarnations of a name may differ: template changes)
+		if len(args.RequestIPRange) > 0 && len(spec.RawRanges) == 0 {
+			v.Ranges = [][]string{}
+			for _, rl := range args.RequestIPRange {
+				names := []string{}
+				for _, r := range rl {
+					for a := nets.IPToInt(r.First); a <= nets.IPToInt(r.Last) && len(names) < 64; a++ {
+						names = append(names, IPName(nets.IntToIP(a)))
+					}
+				}
+				v.Ranges = append(v.Ranges, names)
 			}
 		}
 	}
@@ -466,18 +480,17 @@ func (p *podsIface) Get(ctx context.Context, name string, o metav1.GetOptions) (
 }
 
 func (p *podsIface) Bind(ctx context.Context, b *corev1.Binding, o metav1.CreateOptions) error {
-	var ann []string
+	ann, infos := []string{}, []map[string]interface{}{}
 	if args, err := constant.UnmarshalCniArgs(b.Annotations[constant.ExtendedCNIArgsAnnotation]); err == nil && args != nil {
 		for _, info := range args.Common.IPInfos {
 			if info.IP != nil {
 				ann = append(ann, IPName(info.IP.IP))
+				bits, _ := info.IP.Mask.Size()
+				infos = append(infos, map[string]interface{}{"vlan": int(info.Vlan), "mask": bits, "gw": info.Gateway.String()})
 			}
 		}
 	}
-	if ann == nil {
-		ann = []string{}
-	}
-	op := p.w.S.Gate(&Call{Name: "binding", Args: map[string]interface{}{"pod": b.Name, "node": b.Target.Name, "uid": string(b.UID), "ann": ann}})
+	op := p.w.S.Gate(&Call{Name: "binding", Args: map[string]interface{}{"pod": b.Name, "node": b.Target.Name, "uid": string(b.UID), "ann": ann, "info": infos}})
 	set := func(res string) {
 		if op != nil {
 			op.Last.Ret = map[string]interface{}{"res": res}
